@@ -146,7 +146,10 @@ fn reassembly_step2(rel: ReliabilityKind) {
     core::mem::forget(ofr);
 }
 
-// @check props=C05 tier=thorough timeout=1800
+// NOT INDEXED (measured: symbolic execution 100-185 s, then CBMC runs out of 12 GB in propositional reduction; the
+// symbolic-order variant does not finish symbolic execution in 500 s). Kept as the record of the reassembly obligation
+// that could not be decided with this technique on this machine; see vlib/ptab/rtps_proto.py C05 "outside".
+// @disabled-check props=C05 tier=thorough timeout=1800
 // @desc Reassembly step, RELIABLE reader (real on_data_frag_submessage): the fragment buffer holds none or one of the 2 fragments of the next expected sample, optionally plus a stale fragment of the previous sequence number; one more DATA_FRAG j (symbolic, possibly a duplicate) is delivered: exactly one change is appended iff j was the last missing fragment, with the written 3 bytes, sequence number and writer; otherwise nothing is appended and available_changes_max does not move.
 // @bounds sample of 3 bytes, fragment size 2 (2 fragments, last one short), fragments produced by the real CacheChange::as_data_frag_submessage; expected sequence number symbolic in 1..=1001; unwind 4 (3-fragment samples in any order: c05_reassembly_orders, c05_reassembly3_step_*)
 // @assume reachable fragment-buffer states never hold all fragments of a sample (completion reassembles and removes them in the same call)
@@ -160,7 +163,10 @@ fn c05_reassembly_step_reliable() {
     reassembly_step2(ReliabilityKind::Reliable);
 }
 
-// @check props=C05,C02 tier=thorough timeout=1800
+// NOT INDEXED (measured: symbolic execution 100-185 s, then CBMC runs out of 12 GB in propositional reduction; the
+// symbolic-order variant does not finish symbolic execution in 500 s). Kept as the record of the reassembly obligation
+// that could not be decided with this technique on this machine; see vlib/ptab/rtps_proto.py C05 "outside".
+// @disabled-check props=C05,C02 tier=thorough timeout=1800
 // @desc Reassembly step, BEST_EFFORT reader: as c05_reassembly_step_reliable, with a fragment of the NEXT sample interleaved in the buffer.
 // @bounds sample of 3 bytes, fragment size 2 (2 fragments), expected sequence number symbolic in 1..=1001; unwind 4
 // @assume reachable fragment-buffer states never hold all fragments of a sample
@@ -173,7 +179,10 @@ fn c05_reassembly_step_besteffort() {
     reassembly_step2(ReliabilityKind::BestEffort);
 }
 
-// @check props=C05 tier=thorough timeout=1800
+// NOT INDEXED (measured: symbolic execution 100-185 s, then CBMC runs out of 12 GB in propositional reduction; the
+// symbolic-order variant does not finish symbolic execution in 500 s). Kept as the record of the reassembly obligation
+// that could not be decided with this technique on this machine; see vlib/ptab/rtps_proto.py C05 "outside".
+// @disabled-check props=C05 tier=thorough timeout=1800
 // @desc Reassembly under every delivery order with duplicates (writer-proxy level, the two calls on_data_frag_submessage makes): 4 deliveries, each a symbolic choice among the 3 fragments of a 5-byte sample, interleaved with a fragment of another sample; after each delivery reconstruct_data_from_frag is called as the reader does: it returns a DATA submessage exactly at the first delivery after which all 3 fragments were seen, never before, and its payload is the written 5 bytes in order regardless of arrival order; afterwards no fragment of the sample stays buffered.
 // @bounds 5-byte sample, fragment size 2 (fragments of 2,2,1 bytes), 4 deliveries (covers all 3! orders and one duplicate at any position), one foreign fragment; stand-alone RtpsWriterProxy; unwind 7
 // @enc rtps::writer_proxy::RtpsWriterProxy::push_data_frag
